@@ -8,7 +8,8 @@
 //! * the tokens after `|` are the raw store the REAL `check(read_data)` and the real read-back run on.
 //! `exec` recomputes the abstraction from the raw store (so a generator bug cannot hide) and prints
 //!   `errs=<sorted Error-level finding kinds|none|cmd-err> restore=<ok|bad|->`   (`-` when errs != none)
-//! or `oracle-fail:silent:<label-class>` when check is silent although a snapshot does not read back.
+//! or `oracle-fail:silent:<label-class>` when check is silent although a snapshot does not read back (`silent-dup` when the damage
+//! is confined to redundant copies of blobs stored twice — open known finding).
 //! The store bytes depend on random nonces, so generated lines differ between runs; every line is
 //! self-contained and replays exactly.
 use std::collections::{BTreeMap, BTreeSet};
@@ -514,6 +515,28 @@ fn case_timeout() -> std::time::Duration {
     std::time::Duration::from_secs(if HUNG_CASES.load(std::sync::atomic::Ordering::SeqCst) == 0 { first } else { first.min(15) })
 }
 
+/// Is the damage confined to REDUNDANT copies — is some live pack missing or not the bytes its name says, while every blob any
+/// such pack holds has another live index entry in an undamaged pack?  (A backup can store one chunk twice — two files of equal
+/// content handled by different packer threads.)  Check reads the one copy its own index look-up returns; a reader whose index
+/// was sorted differently may be handed the other one: open known finding (`oracle-fail:silent-dup`).
+pub fn redundant_copy_damaged(key: &MasterKey, store: &Store) -> bool {
+    let mut live: Vec<IndexPack> = Vec::new();
+    for (_, b) in files_of(store, FileType::Index) {
+        if let Some(f) = decode_file(key, &b).and_then(|p| serde_json::from_slice::<IndexFile>(&p).ok()) {
+            live.extend(f.packs);
+        }
+    }
+    let damaged = |p: &IndexPack| match store.get(&(ft_idx(FileType::Pack), *p.id)) {
+        None => true,
+        Some(data) => sha_hex(data) != p.id.to_hex().as_str(),
+    };
+    let bad: Vec<&IndexPack> = live.iter().filter(|p| damaged(p)).collect();
+    !bad.is_empty()
+        && bad.iter().all(|p| {
+            p.blobs.iter().all(|b| live.iter().any(|q| q.id != p.id && !damaged(q) && q.blob_type() == p.blob_type() && q.blobs.iter().any(|c| c.id == b.id)))
+        })
+}
+
 pub fn exec(toks: &[&str]) -> String {
     if toks.len() < 3 || toks[0] != "chk" {
         return "bad-op".into();
@@ -551,7 +574,7 @@ pub fn exec(toks: &[&str]) -> String {
         }
         Err(std::sync::mpsc::RecvTimeoutError::Disconnected) => "panic:case-thread-died".to_string(),
     };
-    if out == "oracle-fail:silent" { format!("oracle-fail:silent:{class}") } else { out }
+    if out == "oracle-fail:silent" || out == "oracle-fail:silent-dup" { format!("{out}:{class}") } else { out }
 }
 
 fn exec_case(abs: Vec<String>, key: MasterKey, store: Store, expected: BTreeMap<String, String>, phase: &std::sync::atomic::AtomicU8) -> String {
@@ -575,7 +598,7 @@ fn exec_case(abs: Vec<String>, key: MasterKey, store: Store, expected: BTreeMap<
         phase.store(2, std::sync::atomic::Ordering::SeqCst);
         let ok = errs != "none" || real_restore_listed_ok(&h, &expected);
         if errs == "none" && !ok {
-            return "oracle-fail:silent".to_string();
+            return if redundant_copy_damaged(&key, &store) { "oracle-fail:silent-dup".to_string() } else { "oracle-fail:silent".to_string() };
         }
         if ambiguous(&key, &store) {
             let e1 = match raw {
